@@ -267,12 +267,15 @@ func cmdCheck(args []string) int {
 	var workers []*worker
 	for _, k := range gorder {
 		idxs := byGroup[k]
-		nw := (*jobs*len(idxs) + len(runs) - 1) / len(runs)
-		if nw < 1 {
-			nw = 1
-		}
+		// one worker process per slot and group (each loads the package once); the semaphore
+		// below keeps at most *jobs of them running, so that run costs that are skewed inside a
+		// group (large split values) do not serialise behind one process
+		nw := *jobs
 		if nw > len(idxs) {
 			nw = len(idxs)
+		}
+		if nw < 1 {
+			nw = 1
 		}
 		// heavier runs (later split values) first, dealt round-robin
 		ws := make([]*worker, nw)
